@@ -28,20 +28,20 @@ func init() {
 		Level:            "fault_enumeration",
 		CrashIsViolation: true,
 		HangSeconds:      90,
-		Rule: "case = one read (reader.ReadDocument; a slice through mobile.Reader.ReadDocument) of a small simulated chip in one of the configurations {BAC, PACE-GM, PACE-CAM, BAC+AA-RSA, PACE+CA, PACE+AA-ECDSA, ...} with the response of exchange k replaced by one fault kind {empty, 1 byte, truncated by 1 / half, one bit flipped, random bytes of the same length, 70000 extra bytes, bare 6A82 / 6982 / 6700 / 6F00 / 6283 / 9000, a bare status word drawn from 36 values of every class, genuine data with another outer status}; every k of the exchange sequence x every kind is enumerated (session randomness is deterministic, so the prefix before k is identical to the clean run); plus chips without access control (no EF.CardAccess, no BAC, all files in the clear; every k x the kinds that do not alter data); plus the n-th SELECT EF of the read (every n, every configuration) x 16 status kinds {6982 6985 6A86 6282 6283 6A82 6700 6F00 6300 6981 6A80 6200 6400 9001, other outer status, drawn}; plus random multi-fault sequences; " +
-			"oracle: no crash / runaway (exchange count), every returned file byte-identical to the chip's, no step reported successful that the chip did not complete, trusted only with genuine files, an altered authentication exchange leaves an error or that step recorded as failed, an answer to SELECT EF altered into anything but 6A82 / 6283 while the chip answered 9000 leaves an error, the file, or (EF.CardAccess / EF.CardSecurity) a recorded PACE attempt / failure; non-trivial = a fault was actually injected; distinct = (configuration, k, kind) or the fault sequence",
+		Rule: "case = one read (reader.ReadDocument; a slice through mobile.Reader.ReadDocument) of a small simulated chip in one of the configurations {BAC, PACE-GM, PACE-CAM, BAC+AA-RSA, PACE+CA, PACE+AA-ECDSA, ...} with the response of exchange k replaced by one fault kind {empty, 1 byte, truncated by 1 / half, one bit flipped, random bytes of the same length, 70000 extra bytes, bare 6A82 / 6982 / 6700 / 6F00 / 6283 / 9000, a bare status word drawn from 36 values of every class, genuine data with another outer status, the data stripped and the trailing status kept (a bare 9000 in the clear), only the first data byte and the status}; every k of the exchange sequence x every kind is enumerated (session randomness is deterministic, so the prefix before k is identical to the clean run); plus chips without access control (no EF.CardAccess, no BAC, all files in the clear; every k x the kinds that do not alter data); plus the n-th SELECT EF of the read (every n, every configuration) x 16 status kinds {6982 6985 6A86 6282 6283 6A82 6700 6F00 6300 6981 6A80 6200 6400 9001, other outer status, drawn}; plus random multi-fault sequences; " +
+			"oracle: no crash / runaway (exchange count), every returned file byte-identical to the chip's, no step reported successful that the chip did not complete, trusted only with genuine files, an altered authentication exchange leaves an error or that step recorded as failed, an answer to SELECT EF altered into anything but 6A82 / 6283 while the chip answered 9000 leaves an error, the file, or (EF.CardAccess / EF.CardSecurity) a recorded PACE attempt / failure; an altered answer to a READ BINARY of a file (the chip delivered data with 9000; in the clear - EF.CardAccess, every file of a chip without access control - or protected) leaves an error, the file, or (EF.CardAccess / EF.CardSecurity) a recorded PACE attempt / failure; non-trivial = a fault was actually injected; distinct = (configuration, k, kind) or the fault sequence",
 		MinEvaluations: 1500,
 		Exhaustive:     func(string) bool { return true },
 		Assumptions: []string{
 			"exhaustive over (exchange index, fault kind) for the enumerated configurations; the fault values themselves (which bit, which random bytes) are sampled",
-			"a fault that makes a step 'failed' is allowed, and so is a fault that makes a file 'absent' by delivering 6A82 / 6283 to its SELECT (the link then says what a chip without the file says); wrong bytes, wrong success, trust without genuine files, crashes, runaway reads, and a stored file or the PACE step that vanishes without error after any other altered SELECT answer are violations",
+			"a fault that makes a step 'failed' is allowed, and so is a fault that makes a file 'absent' by delivering 6A82 / 6283 to its SELECT (the link then says what a chip without the file says); wrong bytes, wrong success, trust without genuine files, crashes, runaway reads, and a stored file or the PACE step that vanishes without error after any other altered SELECT answer or after an altered READ BINARY answer (e.g. a success status without data) are violations",
 			"on a chip without access control only faults that do not alter data are injected: garbled data in the clear cannot be noticed by any reader at read time",
 		},
 		Run: runC11,
 	})
 }
 
-var c11Kinds = []string{"empty", "one-byte", "truncate-1", "truncate-half", "bitflip", "random-same-length", "extra-70000", "sw-6a82", "sw-6982", "sw-6700", "sw-6f00", "sw-6283", "sw-9000", "other-outer-sw", "sw-drawn"}
+var c11Kinds = []string{"empty", "one-byte", "truncate-1", "truncate-half", "bitflip", "random-same-length", "extra-70000", "sw-6a82", "sw-6982", "sw-6700", "sw-6f00", "sw-6283", "sw-9000", "other-outer-sw", "sw-drawn", "data-stripped-keep-status", "first-byte-only"}
 
 // status words the kind "sw-drawn" draws from (one per case, from the case's PRNG): warnings,
 // execution and checking errors of every class, "more data" and a value that is no status word
@@ -51,7 +51,7 @@ var c11DrawnStatuses = []uint16{0x6982, 0x6985, 0x6A86, 0x6282, 0x6283, 0x6A82, 
 
 // kinds that replace or keep the data but never alter it: usable on a chip without access
 // control, where every file travels in the clear and no reader can notice garbled data
-var c11StatusKinds = []string{"empty", "one-byte", "sw-6a82", "sw-6982", "sw-6700", "sw-6f00", "sw-6283", "sw-9000", "other-outer-sw", "sw-drawn", "sw-6985", "sw-6a86", "sw-6282"}
+var c11StatusKinds = []string{"empty", "one-byte", "sw-6a82", "sw-6982", "sw-6700", "sw-6f00", "sw-6283", "sw-9000", "other-outer-sw", "sw-drawn", "sw-6985", "sw-6a86", "sw-6282", "data-stripped-keep-status", "first-byte-only"}
 
 // kinds applied to the n-th SELECT EF of a read
 var c11SelectKinds = []string{"sw-6982", "sw-6985", "sw-6a86", "sw-6282", "sw-6283", "sw-6a82", "sw-6700", "sw-6f00", "sw-6300", "sw-6981", "sw-6a80", "sw-6200", "sw-6400", "sw-9001", "other-outer-sw", "sw-drawn"}
@@ -79,6 +79,15 @@ func c11Fault(r *mrand.Rand, kind string, resp []byte) []byte {
 		v := append([]byte{}, resp[:max(0, n-2)]...)
 		v = append(v, randBytes(r, 70000)...)
 		return append(v, resp[max(0, n-2):]...)
+	case "data-stripped-keep-status":
+		// the response data is lost, the trailing status word arrives (9000 -> a bare 9000)
+		return append([]byte{}, resp[max(0, n-2):]...)
+	case "first-byte-only":
+		// only the first data byte and the trailing status word arrive
+		if n < 3 {
+			return append([]byte{}, resp...)
+		}
+		return []byte{resp[0], resp[n-2], resp[n-1]}
 	case "sw-drawn":
 		sw := c11DrawnStatuses[r.IntN(len(c11DrawnStatuses))]
 		return []byte{byte(sw >> 8), byte(sw)}
@@ -256,6 +265,10 @@ func c11Run(k *fw.K, ci int, plan c11Plan, viaMobile bool, label string) bool {
 	selAltered := map[string]string{}
 	selCount := 0
 	inLDS := false
+	// files of which the chip delivered data with 9000 to a READ BINARY while the link delivered
+	// something else (data lost or cut, another status, garbage) -> what was delivered
+	readAltered := map[string]string{}
+	chipCur, libCur := "", "" // the file the chip has selected / the library was told is selected
 	wrap := func(next func([]byte) []byte) func([]byte) []byte {
 		return func(raw []byte) []byte {
 			idx := exch
@@ -272,8 +285,10 @@ func c11Run(k *fw.K, ci int, plan c11Plan, viaMobile bool, label string) bool {
 					switch {
 					case cmd.P1 == 0x04 && card.Events[n-1].SW == 0x9000:
 						inLDS = true
+						chipCur, libCur = "", ""
 					case cmd.P1 == 0x00 && card.Events[n-1].SW == 0x9000:
 						inLDS = false
+						chipCur, libCur = "", ""
 					case cmd.P1 == 0x02 && len(cmd.Data) == 2:
 						isSelEF = true
 						if sk, sok := plan.bySelect[selCount]; sok {
@@ -283,9 +298,26 @@ func c11Run(k *fw.K, ci int, plan c11Plan, viaMobile bool, label string) bool {
 					}
 				}
 			}
+			selName := ""
+			if isSelEF {
+				ev := card.Events[len(card.Events)-1]
+				selName = c11FileName(uint16(ev.Cmd.Data[0])<<8|uint16(ev.Cmd.Data[1]), inLDS)
+				if ev.SW == 0x9000 {
+					chipCur = selName
+				}
+				// the library takes the file as selected when it is given a 9000: the chip's own
+				// unaltered answer, or (below) a bare 9000 delivered in the clear
+				libCur = "?"
+				if ev.SW == 0x9000 && !ok {
+					libCur = selName
+				}
+			}
 			if ok {
 				injected++
 				f := c11Fault(r, kind, resp)
+				if isSelEF && !card.Events[len(card.Events)-1].Protected && len(f) == 2 && f[0] == 0x90 && f[1] == 0x00 {
+					libCur = selName
+				}
 				// what counts as altered: another status word, or other data where the genuine
 				// response carried data (extra bytes on a status-only response that keep the
 				// status are ignored by the command helpers and change nothing)
@@ -316,6 +348,23 @@ func c11Run(k *fw.K, ci int, plan c11Plan, viaMobile bool, label string) bool {
 							if _, dup := selAltered[name]; !dup {
 								selAltered[name] = fmt.Sprintf("%x", f[max(0, len(f)-2):])
 							}
+						}
+					}
+					if ev.Cmd != nil && ev.Cmd.INS == 0xB0 && ev.SW == 0x9000 && len(ev.Data) > 0 && chipCur != "" && chipCur == libCur {
+						k.Count("read_binary_answer_altered")
+						if ev.Protected {
+							k.Count("read_binary_answer_altered_under_secure_messaging")
+						} else {
+							k.Count("read_binary_answer_altered_in_the_clear")
+							if len(f) == 2 && f[0] == 0x90 && f[1] == 0x00 {
+								k.Count("read_binary_answer_in_the_clear_replaced_by_bare_9000")
+								if ev.Cmd.P1 == 0 && ev.Cmd.P2 == 0 {
+									k.Count("header_read_answer_in_the_clear_replaced_by_bare_9000:" + chipCur)
+								}
+							}
+						}
+						if _, dup := readAltered[chipCur]; !dup {
+							readAltered[chipCur] = fmt.Sprintf("%s at offset %d (%d bytes delivered instead of %d)", kind, int(ev.Cmd.P1)<<8|int(ev.Cmd.P2), len(f), len(resp))
 						}
 					}
 					if ev.Cmd != nil {
@@ -506,6 +555,54 @@ func c11Run(k *fw.K, ci int, plan c11Plan, viaMobile bool, label string) bool {
 					continue
 				}
 				k.Violation("fault:file-silently-missing-after-select-status:"+name, fmt.Sprintf("the chip stores %s and answered SELECT EF with 9000, the link delivered %s instead (not a 'file not found' status); the read ended without an error and without the file (%s)", name, selAltered[name], label), det(""))
+				return injected > 0
+			}
+		}
+		// an altered answer to a READ BINARY of a file (the chip delivered data with 9000): the read
+		// ended without an error, so that file must have been obtained (the fault was harmless: a
+		// short answer the read loop made up for) - or, for the files of the PACE step, that step
+		// must be recorded as attempted and failed. The file is never silently missing.
+		names = names[:0]
+		for name := range readAltered {
+			names = append(names, name)
+		}
+		sort.Strings(names)
+		for _, name := range names {
+			if docFile(d, name) != nil {
+				k.Count("file_obtained_although_a_read_binary_answer_was_altered")
+				continue
+			}
+			paceTrace := s.PaceErr != nil || s.PaceResult != nil || s.PaceCamResult != nil
+			switch {
+			case name == "CardAccess":
+				if paceTrace {
+					k.Count("cardaccess_lost_after_read_fault_with_pace_trace")
+					continue
+				}
+				k.Violation("fault:cardaccess-read-answer-altered-skipped-pace-silently", fmt.Sprintf("the chip stores EF.CardAccess, answered SELECT EF with 9000 and READ BINARY with data; the link delivered %s; the read ended without an error, without EF.CardAccess and without any PACE attempt or failure recorded (%s)", readAltered[name], label), det(fmt.Sprintf("bacResult=%v bacErr=%v", s.BacResult != nil, s.BacErr)))
+				return injected > 0
+			case name == "CardSecurity":
+				if s.PaceErr != nil || (s.PaceCamResult != nil && !s.PaceCamResult.Success) || (s.PaceResult != nil && !s.PaceResult.Success) {
+					k.Count("cardsecurity_lost_after_read_fault_with_pace_failure_recorded")
+					continue
+				}
+				k.Violation("fault:file-silently-missing-after-read-fault:CardSecurity", fmt.Sprintf("the chip delivered EF.CardSecurity, the link delivered %s; the read ended without an error, without the file and without a PACE failure recorded (%s)", readAltered[name], label), det(""))
+				return injected > 0
+			default:
+				var n int
+				stored := name == "SOD" || name == "COM"
+				if _, err := fmt.Sscanf(name, "DG%d", &n); err == nil {
+					_, stored = p.DGFiles[n]
+					supported := false
+					for _, sn := range supportedDGs {
+						supported = supported || sn == n
+					}
+					stored = stored && supported
+				}
+				if !stored {
+					continue
+				}
+				k.Violation("fault:file-silently-missing-after-read-fault:"+name, fmt.Sprintf("the chip stores %s, answered SELECT EF with 9000 and READ BINARY with data; the link delivered %s; the read ended without an error and without the file (%s)", name, readAltered[name], label), det(""))
 				return injected > 0
 			}
 		}
